@@ -193,7 +193,6 @@ def _inf_cmp(op, b):
 
 class _SNum:
     __slots__ = ('e',)
-    __array_priority__ = 1000  # binary ops with ndarrays: let the array broadcast element-wise (object dtype)
 
     def __init__(self, e):
         self.e = e
@@ -387,7 +386,6 @@ class SReal(_SNum):
 
 class SBool:
     __slots__ = ('e',)
-    __array_priority__ = 1000
 
     def __init__(self, e):
         self.e = e
@@ -1026,7 +1024,6 @@ def _fp_sort_of(e):
 
 class SFloat:
     __slots__ = ('e',)
-    __array_priority__ = 1000
 
     def __init__(self, e):
         self.e = e
